@@ -116,6 +116,14 @@ def Tok.text : Tok → String
   | .var s | .atom s | .num s | .unop s | .binop s | .str s => s
   | .lbrack => "[" | .rbrack => "]"
 
+/-- The token type as prolog.g4 / prologLexer.py name it (literal tokens by their quoted text). -/
+def Tok.kind : Tok → String
+  | .dot => "'.'" | .neck => "':-'" | .naf => "'\\+'" | .comma => "','" | .arrow => "'->'" | .semi => "';'"
+  | .lparen => "'('" | .rparen => "')'" | .slash => "'/'" | .bar => "'|'"
+  | .tru => "TRUE" | .fail => "FAIL" | .cut => "CUT"
+  | .var _ => "VARIABLE" | .atom _ => "ATOM" | .num _ => "NUMERAL" | .unop _ => "UNOP" | .binop _ => "BINOP"
+  | .str _ => "STRING" | .lbrack => "LBRACK" | .rbrack => "RBRACK"
+
 /-- `unquoteString`: drop the first and last character and every backslash in between. -/
 def unquote (raw : String) : String :=
   let inner := (raw.toList.drop 1).dropLast
